@@ -150,6 +150,18 @@ def explore(tier, seed):
                 # a defect of one codemod's result (e.g. an empty description) is the same defect in every history it occurs in
                 sig = f"result|{k}" if k.startswith(("empty-summary:", "empty-description:")) else f"seq|{k1}>{k2}|{name}|{k}"
                 cands.setdefault(sig, ({"sequence": True, "pair": [k1, k2], "step": name, "kind": k}, d))
+    # every distinct outcome of the thread-schedule explorations (C11's drivers, <= 1 preemption): the report of a run with
+    # several workers obeys the same invariants whatever the interleaving
+    from . import c11a
+
+    sched_outcomes = 0
+    for drv, gran in (("semgrep-detected", "line"), ("detector-less", "coarse"), ("sonar", "coarse")):
+        r = c11a.explore_cached(drv, gran, 1)
+        before = {k: v for k, v in r["files"].items()}
+        for h, detail in sorted(r["details"].items()):
+            sched_outcomes += 1
+            for k, d in codetf.validate_results(detail["results"], before=before, after=detail["tree"]):
+                cands.setdefault(f"schedule|{drv}|{k}", ({"schedule": drv, "gran": gran, "choices": r["outcomes"][h], "kind": k}, f"under schedule {r['outcomes'][h][:30]}: {d}"))
     known_open = {k["signature"] for k in core.load_known() if k["property"] == PROP and k["status"] == "open"}
     violations, divergence = [], []
     new = [(sig, c) for sig, c in sorted(cands.items()) if sig not in known_open]
@@ -173,6 +185,7 @@ def explore(tier, seed):
         "results_validated_in_corners": nres,
         "changesets_validated_in_corners": ncs,
         "pair_history_reports": nrep,
+        "schedule_outcomes_validated": sched_outcomes,
         "pair_cache_hit": hit,
         "cli_divergence": divergence,
         "rule": "state = a completed run with --output; invariant = schema + structural invariants of C15 on its report, tree and log",
@@ -186,6 +199,13 @@ def explore(tier, seed):
 
 
 def replay(rp):
+    if rp.get("schedule"):
+        from . import c11a
+
+        drive.init_inproc()
+        _, h, detail = c11a.run_once(rp["schedule"], rp["choices"], rp["gran"])
+        found = codetf.validate_results(detail["results"], before=dict(c11a.DRIVERS[rp["schedule"]]["files"]), after=detail["tree"])
+        return (rp["kind"] not in {k for k, _ in found}), "\n".join(f"{k}: {d}" for k, d in found) or "report consistent under this schedule"
     if rp.get("sequence"):
         rec = seqspace.pair_job_cli(tuple(rp["pair"]))
         steps = {"batch": (rec["files"], rec["batch"]), "chain1": (rec["files"], rec["chain"][0]), "chain2": (rec["chain"][0]["tree"], rec["chain"][1])}
